@@ -36,6 +36,12 @@ func (w *World) AddKDC(proto, addr, behave string, reply []byte) *KDC {
 		k.Got = append(k.Got, nil)
 		k.GotSeq = append(k.GotSeq, 0)
 		answered := false
+		if k.Behave == "deaf" {
+			// accepts the connection and never reads from it: its receive window is closed from
+			// the start, so whoever writes to it stays blocked in that write
+			e.Peer.HoldWrites, e.Peer.KeepHold = true, true
+			w.S.Count("fault.kdc.never_reads")
+		}
 		e.OnRecv = func(b []byte) {
 			k.Got[idx] = append(k.Got[idx], b...)
 			k.GotSeq[idx] = w.S.Seq
@@ -57,7 +63,22 @@ func (w *World) AddKDC(proto, addr, behave string, reply []byte) *KDC {
 				e.Shut()
 			case "close":
 				e.Shut()
-			case "silent":
+			case "reply-krb-error":
+				e.Send(reply)
+				e.Shut()
+			case "garbage":
+				// something that is not a framed Kerberos reply at all
+				e.Send(k.Reply)
+				if len(k.Reply)%2 == 0 {
+					e.Shut()
+				}
+			case "close-then-silent":
+				// a KDC that is being restarted: the first connection is dropped without a byte,
+				// later ones are accepted by something that does not answer
+				if idx == 0 {
+					e.Shut()
+				}
+			case "silent", "deaf":
 			case "drip":
 				// the reply comes in pieces, each a few seconds after the previous one
 				k.dripStart(e, reply)
@@ -79,6 +100,9 @@ func (k *KDC) ReplyFor(req []byte) []byte {
 	tag := req
 	if len(tag) > 12 {
 		tag = tag[len(tag)-12:]
+	}
+	if k.Behave == "reply-krb-error" {
+		return append([]byte{}, k.Reply...) // a well-formed KRB-ERROR, as it is
 	}
 	if k.Proto == "udp" {
 		return append(append([]byte{}, k.Reply...), tag...)
